@@ -244,6 +244,18 @@ def reduced_ops():
     ]
 
 
+def reduced_ops3():
+    """quick tier, length-3 enumeration: R without the null forms (every null form is in F) and a few near-duplicates"""
+    drop = {"addcomponent 0 null", "replacecomponent_i 0 0 null", "addvariable 2 null", "replaceunits_i 0 0 null",
+            "addequivalence_ids 6 null %s %s" % (S("m"), S("c")), "addequivalence 6 6", "removecomponent_p 2 3 false",
+            "takecomponent_n 0 %s true" % S("a"), "replacecomponent_n 0 %s 4 true" % S("a"), "removevariable_p 3 6",
+            "takevariable_n 3 %s" % S("x"), "removereset_i 2 0", "takeunits_n 1 %s" % S("u"), "replaceunits_n 0 %s 11" % S("u"),
+            "removeunits_n 0 %s" % S("u"), "setunits_p 7 11"}
+    out = [o for o in reduced_ops() if o not in drop]
+    assert len(out) == len(reduced_ops()) - len(drop)
+    return out
+
+
 def reduced_ops4():
     """a smaller set for the length-4 enumeration of the thorough tier: one instance per op family"""
     return [
